@@ -267,7 +267,7 @@ func c15run(w *report.W) {
 							w.Sample(map[string]any{"doc": doc, "want": want})
 						}
 						if kind != "" {
-							w.Violate(report.Violation{Kind: kind, Case: doc, Detail: detail + " | want " + want, Size: len(ord) + 2*ei, Replay: p})
+							w.Violate(report.Violation{Kind: kind, Case: doc, Detail: detail + " | want " + want, Size: len(ord) + 2*ei, Replay: p, GoTest: docGoTest(doc, kind+": "+detail+" | want "+want)})
 						}
 					}
 				}
